@@ -14,8 +14,13 @@ def main():
     for mp in sorted(glob.glob(os.path.join(ROOT, "seeded", "*", "meta.json"))):
         sid = os.path.basename(os.path.dirname(mp))
         m = json.load(open(mp))
-        rows.append((sid, m.get("needs", ""), ", ".join(m.get("caught_by", [])) or "-", ", ".join(m.get("missed_by", [])) or "-",
-                     m.get("matrix_error", "")))
+        caught = ", ".join(m.get("caught_by", [])) or "-"
+        if m.get("not_reported"):
+            caught = "deliberately not reported (10.5): " + m["not_reported"].split(":", 1)[-1].strip()[:110]
+        if m.get("obsolete"):
+            caught = "obsolete: " + m["obsolete"][:110]
+        rows.append((sid, m.get("needs", ""), caught, ", ".join(m.get("missed_by", [])) or "-",
+                     "" if m.get("obsolete") else m.get("matrix_error", "")))
     out = ["### 10.7 Seeded changes and catalogue mutants against the quick checks", "",
            "Confirmed seeded changes (`seeded/<id>/`: `patch.diff`, `demo.py`, `meta.json`). 'caught by' = quick checks that exit 1 with the",
            "change applied to a scratch copy of the current `/repo` (own property plus related ones were tried; 'not affected' lists related",
